@@ -222,6 +222,65 @@ func (r *rewriter) where(n ast.Node) string {
 	return fmt.Sprintf("%s:%d", filepath.Base(pos.Filename), pos.Line)
 }
 
+// atomicOperand returns the pointer expression an atomic call operates on and the
+// operand's size, when that pointer is a value computed by the program (a
+// conversion from unsafe.Pointer, a variable or a field of pointer type) rather
+// than the address of an addressable variable; nil otherwise.
+func (r *rewriter) atomicOperand(n *ast.CallExpr, recvExpr ast.Expr, recvType types.Type) (ast.Expr, int) {
+	sizeOf := func(name string) int {
+		switch {
+		case strings.HasSuffix(name, "64"), name == "Uintptr", name == "Pointer", strings.HasSuffix(name, "Uintptr"), strings.HasSuffix(name, "Pointer"):
+			return 8
+		case strings.HasSuffix(name, "32"):
+			return 4
+		}
+		return 0
+	}
+	pure := func(e ast.Expr) bool {
+		ok := true
+		ast.Inspect(e, func(x ast.Node) bool {
+			if c, isCall := x.(*ast.CallExpr); isCall {
+				// conversions are fine, calls are not evaluated twice
+				if tv, found := r.info.Types[c.Fun]; !found || !tv.IsType() {
+					ok = false
+				}
+			}
+			return ok
+		})
+		return ok
+	}
+	if recvExpr != nil {
+		t := r.info.TypeOf(recvExpr)
+		if _, isPtr := t.(*types.Pointer); !isPtr || !pure(recvExpr) {
+			return nil, 0
+		}
+		named, _ := t.(*types.Pointer).Elem().(*types.Named)
+		if named == nil {
+			return nil, 0
+		}
+		if sz := sizeOf(named.Obj().Name()); sz > 0 {
+			return recvExpr, sz
+		}
+		return nil, 0
+	}
+	// function style: atomic.LoadUint32(p, ...)
+	if len(n.Args) == 0 {
+		return nil, 0
+	}
+	a := n.Args[0]
+	if u, isAddr := ast.Unparen(a).(*ast.UnaryExpr); isAddr && u.Op == token.AND {
+		return nil, 0
+	}
+	fn := typeutil.Callee(r.info, n)
+	if fn == nil || !pure(a) {
+		return nil, 0
+	}
+	if sz := sizeOf(fn.Name()); sz > 0 {
+		return a, sz
+	}
+	return nil, 0
+}
+
 func simrtSel(name string) ast.Expr {
 	return &ast.SelectorExpr{X: ast.NewIdent("simrt"), Sel: ast.NewIdent(name)}
 }
@@ -534,6 +593,15 @@ func (r *rewriter) rewriteCall(n *ast.CallExpr) ast.Expr {
 	switch pkgPath {
 	case "sync/atomic":
 		st.atomics++
+		// The operand of an atomic operation that is reached through a pointer
+		// value (a cell of the mapped file, as opposed to a field the compiler
+		// placed) must be naturally aligned: an unaligned 64-bit atomic panics on
+		// 386/arm/mips and an unaligned atomic of either size faults on arm64
+		// cores without LSE2, whatever this machine does with it.
+		if ptr, size := r.atomicOperand(n, recvExpr, recvType); ptr != nil {
+			n.Fun = call(simrtSel("PtAligned"), r.label("atomic "+exprStr, n), ptr, &ast.BasicLit{Kind: token.INT, Value: strconv.Itoa(size)}, n.Fun)
+			return n
+		}
 		n.Fun = call(simrtSel("Pt"), r.label("atomic "+exprStr, n), n.Fun)
 		return n
 	case "sync":
